@@ -1,7 +1,7 @@
 (** C18 - every store backend honours the node-store contract.
     Statements only; the backend state machines and proofs are in Backend.v. *)
 From Coq Require Import List NArith Bool.
-From Mast Require Import Prim Backend.
+From Mast Require Import Prim Backend StoreHist.
 Import ListNotations.
 
 (** overwrite backends (in-memory map, S3): a stored pair loads back, for any name and any bytes
@@ -34,6 +34,34 @@ Proof. exact s3_key_injective. Qed.
 Theorem C18_s3_roundtrip : forall s prefix n b, blookup (put_over s (s3_key prefix n) b) (s3_key prefix n) = Some b.
 Proof. exact s3_store_then_load. Qed.
 
+(** Over histories (StoreHist.v): ANY sequence of Store calls - any names, each call succeeding or failing
+    in the backend, the same name any number of times (names are content hashes: [content n] is the
+    one byte string ever stored under n) - from the empty store.  A Load returns exactly those bytes
+    if some Store of that name succeeded, and an error otherwise: on the overwriting backends, *)
+Theorem C18_contract_in_histories : forall (content : bytes -> bytes) l k,
+  blookup (fold_left (run_call content put_over) l []) k = if acked l k then Some (content k) else None.
+Proof. exact contract_over. Qed.
+
+(** on the file backend, which leaves an existing name alone, *)
+Theorem C18_contract_in_histories_file : forall (content : bytes -> bytes) l k,
+  blookup (fold_left (run_call content put_skip) l []) k = if acked l k then Some (content k) else None.
+Proof. exact contract_skip. Qed.
+
+(** and on S3 through the object key prefix ++ name. *)
+Theorem C18_contract_in_histories_s3 : forall (content : bytes -> bytes) prefix l n,
+  blookup (fold_left (run_call content put_over) (map (fun c => Call (s3_key prefix (c_name c)) (c_fail c)) l) []) (s3_key prefix n)
+  = if acked l n then Some (content (s3_key prefix n)) else None.
+Proof. exact contract_s3. Qed.
+
+(** non-vacuity: a failing write, an acknowledged one, the same again, a failing write of another name *)
+Example C18_history_example :
+  let c : bytes -> bytes := fun n => n ++ [0%N; 255%N] in
+  let l := [Call [65%N] true; Call [65%N] false; Call [65%N] false; Call [66%N] true] in
+  blookup (fold_left (run_call c put_skip) l []) [65%N] = Some [65%N; 0%N; 255%N] /\
+  blookup (fold_left (run_call c put_skip) l []) [66%N] = None /\
+  blookup (fold_left (run_call c put_over) l []) [65%N] = Some [65%N; 0%N; 255%N].
+Proof. exact contract_example. Qed.
+
 (** PARTIAL: these are theorems about map machines; that the three real backends (Go map under a
     mutex, os files, the S3 client) behave like them is established by the contract engine against
     the implementation (tools/special.py backend), incl. the exact S3 bucket / key of every call. *)
@@ -47,3 +75,6 @@ Print Assumptions C18_concurrent_same_pair.
 Print Assumptions C18_error_propagates.
 Print Assumptions C18_s3_key.
 Print Assumptions C18_s3_roundtrip.
+Print Assumptions C18_contract_in_histories.
+Print Assumptions C18_contract_in_histories_file.
+Print Assumptions C18_contract_in_histories_s3.
